@@ -136,6 +136,12 @@ pub struct NetCase {
     /// stay confined however many of them a connection has seen)
     #[serde(default)]
     pub rounds: u8,
+    /// the caller's own outbound middleware adds a header of this many bytes to every request
+    #[serde(default)]
+    pub layer_header: Option<u16>,
+    /// probes of other frames carry a request header padded to exactly this many bytes
+    #[serde(default)]
+    pub req_header_len: Option<u32>,
 }
 
 struct Sizes {
@@ -147,19 +153,35 @@ struct Sizes {
 
 /// Builds the request for one probe and computes all four frame sizes from the reference codec.
 fn build(which: &Which, target: usize, id: u64) -> Option<(anemo::Request<Bytes>, Sizes, HashMap<String, String>)> {
-    let mut headers: Vec<(String, String)> = Vec::new();
+    build_with(which, target, id, None, None)
+}
+
+/// `layer_hdr`: a header the caller's outbound middleware adds on the way out (on the wire and seen by
+/// the handler, but not part of the request handed to `rpc`); `req_hdr_len`: pad the request header
+/// to exactly this many bytes when the probe is about another frame.
+fn build_with(which: &Which, target: usize, id: u64, layer_hdr: Option<&(String, String)>, req_hdr_len: Option<usize>) -> Option<(anemo::Request<Bytes>, Sizes, HashMap<String, String>)> {
+    let mut headers: Vec<(String, String)> = layer_hdr.cloned().into_iter().collect();
     let mut req_body = recorder::CTL_LEN;
     let mut resp_len = 10usize;
     let base_req_hdr = |h: &[(String, String)]| rw::request_header_bytes("/c15", h).len();
     match which {
         Which::ReqHeader => {
-            let base = base_req_hdr(&[("pad".into(), String::new())]);
+            let mut probe = headers.clone();
+            probe.push(("pad".into(), String::new()));
+            let base = base_req_hdr(&probe);
             let n = target.checked_sub(base)?;
             headers.push(("pad".into(), "x".repeat(n)));
         }
         Which::ReqBody => req_body = target.max(recorder::CTL_LEN),
         Which::RespBody => resp_len = target,
         Which::RespHeader => {}
+    }
+    if let (Some(want), false) = (req_hdr_len, matches!(which, Which::ReqHeader)) {
+        let mut probe = headers.clone();
+        probe.push(("hpad".into(), String::new()));
+        if let Some(n) = want.checked_sub(base_req_hdr(&probe)) {
+            headers.push(("hpad".into(), "h".repeat(n)));
+        }
     }
     let ctl = Ctl { id, delay_ms: 0, status_idx: 0, resp_len: resp_len as u32, resp_hdrs: 0, mode: 0 };
     if let Which::RespHeader = which {
@@ -189,7 +211,8 @@ fn build(which: &Which, target: usize, id: u64) -> Option<(anemo::Request<Bytes>
     };
     let got = match which { Which::ReqHeader => sizes.req_hdr, Which::ReqBody => sizes.req_body, Which::RespHeader => sizes.resp_hdr, Which::RespBody => sizes.resp_body };
     if got != target { return None; }
-    Some((ctl_request("/c15", &headers, &ctl, req_body), sizes, hm))
+    let given: Vec<(String, String)> = headers.iter().filter(|h| Some(*h) != layer_hdr).cloned().collect();
+    Some((ctl_request("/c15", &given, &ctl, req_body), sizes, hm))
 }
 
 pub fn check_net(case: &NetCase, obs: &mut Obs) -> Result<(), Fail> {
@@ -199,6 +222,11 @@ pub fn check_net(case: &NetCase, obs: &mut Obs) -> Result<(), Fail> {
         let ls = case.at_callee.then_some(case.limit as usize);
         let mut sa = NodeSpec::new(0);
         sa.config.max_frame_size = lc;
+        // (only when the small follow-up request still fits the limit with the added header)
+        let layer_hdr: Option<(String, String)> = case.layer_header.filter(|n| case.limit as usize >= *n as usize + 200).map(|n| ("x-layer".to_string(), "L".repeat(n as usize)));
+        if let Some(h) = &layer_hdr {
+            sa.outbound_layer = Some(OutboundLayer { gate: None, add_header: Some(h.clone()) });
+        }
         let mut sb = NodeSpec::new(1);
         sb.config.max_frame_size = ls;
         let a = sim.node_with(sa)?;
@@ -214,7 +242,7 @@ pub fn check_net(case: &NetCase, obs: &mut Obs) -> Result<(), Fail> {
         let probes: Vec<i32> = std::iter::repeat(case.deltas.iter().copied()).take(rounds).flatten().collect();
         for (i, d) in probes.iter().enumerate() {
             let target = (case.limit as i64 + *d as i64).max(0) as usize;
-            let Some((req, sz, hm)) = build(&case.which, target, i as u64) else { obs.label("skipped:size-unreachable"); continue };
+            let Some((req, sz, hm)) = build_with(&case.which, target, i as u64, layer_hdr.as_ref(), case.req_header_len.map(|n| n as usize)) else { obs.label("skipped:size-unreachable"); continue };
             let body = req.body().clone();
             let sent_before = sim.fabric.bytes_sent_from(a.addr());
             let t0 = sim.fabric.now_ms();
@@ -272,15 +300,17 @@ impl Part for Net {
     type Case = NetCase;
     fn name(&self) -> &'static str { "network" }
     fn rule(&self) -> &'static str {
-        "two networks on the fabric, limit L in 64..2^20 placed at caller / callee / both / neither; for one of {request header, request body, response header, response body} the sizes L-3..L+3 (enumerated) plus random sizes, one RPC each, the list repeated 1-8 times on the same connection (up to 40 refusals); frame sizes computed by the reference codec; oracle: Ok and intact iff every frame <= every applicable limit, else Err for that RPC only (returns within bounded virtual time, sender-side refusal immediate and nothing of the frame on the wire, handler not reached when the request is refused), connection still listed and a follow-up RPC succeeds; non-trivial = case containing sizes within +-3 of the limit; distinct by case"
+        "two networks on the fabric, limit L in 64..2^20 placed at caller / callee / both / neither; for one of {request header, request body, response header, response body} the sizes L-3..L+3 (enumerated) plus random sizes, one RPC each, the list repeated 1-8 times on the same connection (up to 40 refusals); optionally the caller's own outbound middleware adds a header of 1-599 bytes (counted: the limit applies to what goes on the wire), and probes of other frames may carry a request header padded to a generated length (around powers of two: the header frame then ends exactly where a read buffer does); frame sizes computed by the reference codec; oracle: Ok and intact iff every frame <= every applicable limit, else Err for that RPC only (returns within bounded virtual time, sender-side refusal immediate and nothing of the frame on the wire, handler not reached when the request is refused), connection still listed and a follow-up RPC succeeds; non-trivial = case containing sizes within +-3 of the limit; distinct by case"
     }
     fn strategy(&self, _t: Tier) -> BoxedStrategy<NetCase> {
         let which = prop_oneof![Just(Which::ReqHeader), Just(Which::ReqBody), Just(Which::RespHeader), Just(Which::RespBody)];
-        (prop_oneof![3 => 200u32..5000, 2 => 5000u32..200_000, 1 => 200_000u32..(1 << 20)], any::<bool>(), any::<bool>(), which, prop::collection::vec(-200_000i32..400_000, 0..3), prop_oneof![4 => Just(1u8), 1 => 2u8..9])
-            .prop_map(|(limit, at_caller, at_callee, which, extra, rounds)| {
+        (prop_oneof![3 => 200u32..5000, 2 => 5000u32..200_000, 1 => 200_000u32..(1 << 20)], any::<bool>(), any::<bool>(), which, prop::collection::vec(-200_000i32..400_000, 0..3), prop_oneof![4 => Just(1u8), 1 => 2u8..9],
+            prop::option::weighted(0.25, 1u16..600),
+            prop_oneof![3 => Just(None), 2 => (prop::sample::select(vec![4096u32, 8192, 16384, 32768, 65536]), -16i32..9).prop_map(|(b, d)| Some((b as i32 + d) as u32)), 1 => (60u32..40_000).prop_map(Some)])
+            .prop_map(|(limit, at_caller, at_callee, which, extra, rounds, layer_header, req_header_len)| {
                 let mut deltas: Vec<i32> = (-3..=3).collect();
                 deltas.extend(extra);
-                NetCase { limit, at_caller, at_callee, which, deltas, rounds }
+                NetCase { limit, at_caller, at_callee, which, deltas, rounds, layer_header, req_header_len }
             })
             .boxed()
     }
